@@ -263,7 +263,11 @@ func (f *flusher) flushMetadatasAndUnmarkDirty(key string, b *blob) error {
 		f.mu.Lock()
 		b.mu.Lock()
 		if len(b.dirtyMD) == 0 {
-			delete(f.blobs, key)
+			// Only unmark our own entry: after an abort the key may have been
+			// re-created and enqueued again, and that entry must stay.
+			if f.blobs[key] == b {
+				delete(f.blobs, key)
+			}
 			b.mu.Unlock()
 			f.mu.Unlock()
 			return nil
@@ -321,9 +325,10 @@ func (f *flusher) flushData(b *blob) error {
 	}
 	defer closers.Close(diskF)
 	f.mu.Lock()
-	_, ok := f.blobs[b.key]
-	if !ok {
-		// abort was called before we created the file, we need to cleanup.
+	cur, ok := f.blobs[b.key]
+	if !ok || cur != b {
+		// abort was called before we created the file (and the key may have been
+		// re-created and enqueued again since), we need to cleanup.
 		err := f.disk.Delete(key)
 		if err != nil && !errors.Is(err, os.ErrNotExist) {
 			f.log.With(
